@@ -8,6 +8,7 @@ import math
 import numpy as np
 
 from harness import curves, monitor, numeric, par
+from harness import enums
 
 
 _WIDE = [False]     # set per recorded item: x-translated variants are judged with a wider noise band (see _record)
@@ -128,7 +129,7 @@ def _record(item):
                 G.append([])
         c["G"] = G
     elif what[0] == "lget":
-        fit, cost = lm.Fit(what[1]), lm.Cost(what[2])
+        fit, cost = enums.pick(lm.Fit, what[1]), enums.pick(lm.Cost, what[2])
         c = base("argopt", monitor.call(lm.get_knee, (xc, yc, fit, cost), budget=B, wall=W), lo_ok=2, hi_ok=n - 3)
         length = x[-1] - x[0]
         E = [_lerr(x, y, i, what[1], what[2]) for i in range(2, n - 2)]
@@ -138,7 +139,7 @@ def _record(item):
         c.update(det="lmethod.get_knee(%s,%s)" % (what[1], what[2]), sense="min", lo=2, hi=n - 3,
                  rank=[-1, -1] + _ranks(E) + [-1, -1])
     else:  # ("lknee", fit, mode, limit)
-        fit, mode, limit = lm.Fit(what[1]), lm.Refinement(what[2]), what[3]
+        fit, mode, limit = enums.pick(lm.Fit, what[1]), enums.pick(lm.Refinement, what[2]), what[3]
         c = base("lknee", monitor.call(lm.knee, (PC, fit, mode, limit), budget=B, wall=W), lo_ok=1)
         A = []
         for cut in range(0, n + 1):
